@@ -260,5 +260,60 @@ impl Context {
 
 }
 
+// ---- Titles (src/processor.rs): the selection names on their way to the printer. The other units see Titles through the
+// assumed declarations of prelude/process.rs (with_title pushes the name, len counts, to_list is one string value per name, in
+// order); here the real bodies are verified against exactly those clauses.
+pub mod titles_m {
+use vstd::prelude::*;
+use std::rc::Rc;
+use super::jt::*;
+//@@ item src/processor.rs :: struct Titles
+//@@ enditem
+pub open spec fn title_values(n: Seq<String>) -> Seq<Option<JsonValue>> { Seq::new(n.len(), |i: int| Some(JsonValue::String(n[i]))) }
+pub broadcast axiom fn axiom_cloned_rc_string(a: Rc<String>, b: Rc<String>)
+    requires #[trigger] cloned(a, b),
+    ensures a == b;
+pub mod vrc {
+use vstd::prelude::*;
+use std::rc::Rc;
+#[verifier::external_body]
+pub fn deref_clone(r: &Rc<String>) -> (s: String) ensures s == **r { unimplemented!() }
+}
+impl Titles {
+    pub closed spec fn names(&self) -> Seq<String> { Seq::new(self.titles@.len(), |i: int| *self.titles@[i]) }
+//@@ fn titles.with_title = src/processor.rs :: impl Titles :: fn with_title
+//@@ safety C15 C18
+//@@ ret r
+//@@ header
+        ensures r.names() == self.names().push(**title), // @obl CTX.titles.with_title : C15 C18
+//@@ body-start
+        broadcast use axiom_cloned_rc_string;
+//@@ before "Titles { titles }"
+        proof { assert(Seq::new(titles@.len(), |i: int| *titles@[i]) =~= self.names().push(**title)); }
+//@@ endfn
+//@@ fn titles.len = src/processor.rs :: impl Titles :: fn len
+//@@ safety C15
+//@@ ret r
+//@@ header
+        ensures r == self.names().len(), // @obl CTX.titles.len : C15
+//@@ endfn
+//@@ fn titles.to_list = src/processor.rs :: impl Titles :: fn to_list
+//@@ safety C15
+//@@ ret r
+//@@ rewrite deref_clone
+//@@ header
+        ensures r@ == title_values(self.names()), // @obl CTX.titles.to_list : C15
+//@@ loop 1 iter it
+            invariant
+                it.seq().len() == self.titles@.len(), 0 <= it.index@ <= self.titles@.len(),
+                forall|j: int| 0 <= j < it.seq().len() ==> *(#[trigger] it.seq()[j]) == self.titles@[j],
+                lst@.len() == it.index@,
+                forall|j: int| 0 <= j < lst@.len() ==> (#[trigger] lst@[j]) == Some(JsonValue::String(*self.titles@[j])),
+//@@ after-loop 1
+        proof { assert(lst@ =~= title_values(self.names())); }
+//@@ endfn
+}
+}
+
 } // verus!
 fn main() {}
